@@ -373,8 +373,12 @@ func tallFamily(c *Ctx, prop string) {
 	// at a time, with the oracle after every undo (up to four undos in a row)
 	gapStart := len(runs)
 	gapNs, gapW, gapDepth := []int{21}, 3, 2
+	heavyOracle := prop == "C02" || prop == "C06" || prop == "C17" // proofs of many subsets per state
 	if c.Thorough() {
 		gapNs, gapW, gapDepth = []int{21, 27, 37}, 6, 3
+		if heavyOracle {
+			gapNs, gapW = []int{21, 27}, 5
+		}
 	}
 	for _, N := range gapNs {
 		for _, h := range gapHists(N, gapW, []int{0, 2}, gapDepth, nil, false) {
@@ -393,6 +397,9 @@ func tallFamily(c *Ctx, prop string) {
 	tdN := 7
 	if c.Thorough() {
 		tdN = 9
+		if heavyOracle {
+			tdN = 8
+		}
 	}
 	tdStart := len(runs)
 	for _, h := range twoDelHists(tdN, []int{0, 1}, nil, false) {
